@@ -103,8 +103,10 @@ def beartyping(
             # conflicting registrations of beartype configurations.
             claw_state.packages_trie_whitelist.conf_if_hooked = None
 
-        # Globalize the passed beartype configuration.
-        beartype_all(conf=conf)
+            # Globalize the passed beartype configuration *WITHOUT* releasing
+            # this reentrant lock, ensuring that other threads never observe
+            # the transient state in which no configuration is globalized.
+            beartype_all(conf=conf)
 
         # Defer to the caller body of the parent "with beartyping(...):" block.
         yield
